@@ -1,7 +1,7 @@
 #!/usr/bin/env python3
 """Authoring helper: every selftest/benign/*.diff (behaviour-preserving refactorings written by independent sub-agents,
 each confirmed by them to keep the 2300 tests green) applied to a scratch copy of /repo's sources; all 20 quick checks
-must stay silent. usage: try_benign.py [--lanes N] [name-prefix | %substring ...]; results -> selftest/benign/last_run.json"""
+must stay silent. usage: try_benign.py [--lanes N] [--props Cxx,Cyy] [name-prefix | %substring ...]; results -> selftest/benign/last_run.json"""
 import concurrent.futures, glob, json, os, re, shutil, subprocess, sys, tempfile
 VERIF, REPO = "/verif", "/repo"
 PROPS = ["C%02d" % i for i in range(1, 21)]
@@ -37,6 +37,11 @@ def one(patch, lane):
 
 def main():
     args = [a for a in sys.argv[1:] if not a.startswith("--")]
+    if "--props" in sys.argv:
+        global PROPS
+        pv = sys.argv[sys.argv.index("--props") + 1]
+        PROPS = pv.split(",")
+        args = [a for a in args if a != pv]
     lanes = 4
     if "--lanes" in sys.argv:
         lanes = int(sys.argv[sys.argv.index("--lanes") + 1])
